@@ -256,9 +256,10 @@ def main(ctx):
     ctx.audit(GROUP)
     problems = ctx.pins(GROUP, PINS + BOUND_PINS)
     failed = ctx.prove(GROUP, "Props_C19", THEOREMS, timeout=2400, extra_allowed=INT63_AXIOMS)
-    ok, out = ctx.make(GROUP, ["VecMathModel.vo"])
-    if not ok:
-        raise vf.CheckerBroken("VecMathModel.v does not compile: " + out[-500:])
+    bad_oracle = ctx.prove(GROUP, "Props_C19_oracle", ["C19_ulp_oracle_meaning", "C19_abs_oracle_meaning", "C19_decode_examples",
+                                                       "C19_F54_witness", "C19_F55_witness"])
+    if bad_oracle:
+        raise vf.CheckerBroken("the oracle module Props_C19_oracle.v does not compile (it does not depend on the pins)")
     pins = read_pins()
     missing = [b for b in BOUND_OF if b not in pins]
     if missing:
